@@ -48,6 +48,7 @@ pub fn spec() -> Spec {
         amb: |m| m.stats.ambiguous_a1 || m.stats.ambiguous_a2,
         counters,
         signature,
+        slice: false,
         also_check: false,
     }
 }
